@@ -379,13 +379,19 @@ def scenarios(tier):
             results=res, menu=['rerun'], max_cmds=1, only_tasks=['s'],
             compare_ctx=False, items_to_rerun=1)
         jobs.append((scn, 0 if quick else 1, 60 if quick else 1200, 1))
+    # the database refuses the first commit of every rerun / skip command
+    # as a deadlock victim: the engine retries the transaction
+    for scn, bound, secs, na in list(jobs):
+        if not getattr(scn, 'rp', False) and hasattr(scn, 'cmd_db_fault'):
+            jobs.append((common.variant(scn, '/dbretry', cmd_db_fault=True),
+                         0, secs, na))
     return jobs
 
 
 def main(tier):
     rep = common.Report(PROP, tier)
     jobs = common.rotate(scenarios(tier))
-    deadline = time.time() + (170 if tier == 'quick' else 1500)
+    deadline = time.time() + (270 if tier == 'quick' else 1500)
     res = common.parallel_map(common.explore_job, jobs, deadline=deadline)
     rep.add_explore_results(jobs, res)
     rep.assumptions = [
